@@ -149,7 +149,7 @@ def step (st : State) (w : List String) : State × String :=
       let g := glueFromReferral (l c) (l r)
       (st, s!"servers={g.1} cache={g.2}")
     | _, _ => (st, "bad-op")
-  | ["wr", path, _kind, _ttl, cut, ck, _cap] =>
+  | ["wr", path, kind, _ttl, cut, ck, _cap] =>
     -- every write entry point of the answer cache stores the cut it is handed (`storeCut`);
     -- neither the kind of answer, nor its TTL, nor an ECS cap, nor who claimed a prefetch matters
     match parseT cut, ck.toNat? with
@@ -157,6 +157,12 @@ def step (st : State) (w : List String) : State × String :=
       if !(["key", "subq", "scoped", "prefetch", "prefetch-ecs"].contains path) then (st, "bad-op") else
       -- the refresh's cut reaches the worker through a fresh ResponseMeta (zero deadlines are not folded)
       let m : Meta := if path == "prefetch" || path == "prefetch-ecs" then ({} : Meta).boundCutFor cut ck else ⟨cut, ck⟩
+      -- a refresh that FAILS (SERVFAIL) replaces nothing: the claimed answer lapses with its own cut
+      if kind.endsWith ">servfail" then
+        (match replaceIfCurrent false m.cut m.key with
+         | some r => (st, s!"cut={showT r.1} key={r.2}")
+         | none => (st, "none"))
+      else
       let r := storeCut m.cut m.key
       (st, s!"cut={showT r.1} key={r.2}")
     | _, _ => (st, "bad-op")
